@@ -1030,9 +1030,58 @@ def predicate_pair(TA, RA, TB, RB, ft: bool, fr: bool, opsA: list, opsB: list) -
     return None
 
 
+def persist_predicate(seed: int):
+    """a surrogate loop that is restarted from the files `write_data` left (examples: every Bayesian-optimisation cycle
+    dumps the dataset and the next run starts from the dump): "the old data followed by the new, however many times
+    this is repeated" has to survive the restart, so what is written must read back as the same doubles — numpy's
+    default text format (`%.18e`) does that exactly; features and responses stay aligned row by row"""
+    import os
+    import random
+    from topsearch.data.model_data import ModelData
+    rng = random.Random(seed)
+    n, d = rng.choice([1, 2, 3, 7, 20]), rng.choice([1, 2, 3, 5])
+    scale = rng.choice([1e-9, 1e-3, 1.0, 1.0, 37.0, 2.5e6])
+    T = np.array([[rng.uniform(-1, 1) * scale + rng.choice([0.0, 0.0, 1e5 * scale]) for _ in range(d)] for _ in range(n)])
+    R = np.array([rng.uniform(-1, 1) * rng.choice([1e-12, 1.0, 1e7]) + (1.0 / 3.0) for _ in range(n)])
+    md = make_md(T, R)
+    want_T, want_R = np.array(md.training, dtype=float).reshape(n, -1), np.atleast_1d(np.array(md.response, dtype=float))
+    k = next(_counter)
+    for cycle in range(rng.choice([1, 2, 3])):
+        tf, rf = f"c19_persist_t{k}_{cycle}.txt", f"c19_persist_r{k}_{cycle}.txt"
+        try:
+            md.write_data(tf, rf)
+            with warnings.catch_warnings():
+                warnings.simplefilter("ignore")
+                md = ModelData(tf, rf)
+        finally:
+            for f in (tf, rf):
+                if os.path.exists(f):
+                    os.remove(f)
+        got_T = np.array(md.training, dtype=float).reshape(len(want_T), -1) if np.size(md.training) == want_T.size else None
+        got_R = np.atleast_1d(np.array(md.response, dtype=float))
+        if got_T is None or got_R.shape != want_R.shape or not np.array_equal(got_T, want_T) or not np.array_equal(got_R, want_R):
+            err = float(np.max(np.abs(got_T - want_T))) if got_T is not None else float("nan")
+            return ("persist:write-read", f"a dataset of {n} points in {d} dimensions written with write_data and read back "
+                    f"(restart {cycle + 1}) is not the dataset that was written (largest deviation {err:.3g}; numpy's "
+                    "default text format round-trips doubles exactly)", {"persist_seed": seed})
+        # the restarted loop goes on: new observations are appended after the old ones
+        k_new = rng.randrange(1, 3)
+        nt = np.array([[rng.uniform(-1, 1) * scale for _ in range(d)] for _ in range(k_new)])
+        nr = np.array([rng.uniform(-1, 1) for _ in range(k_new)])
+        md.append_data(nt, nr)
+        want_T, want_R = np.vstack([want_T, nt]), np.concatenate([want_R, nr])
+    return None
+
+
 def predicates(ctx: Ctx) -> None:
     rng = ctx.rng
     deep = 4 if getattr(ctx, "deep_search", False) else 1
+    for sd in range(ctx.seed * 1000, ctx.seed * 1000 + ctx.scale(30, 200)):
+        r = persist_predicate(sd)
+        ctx.stats.case({"stream": "predicate-persist", "seed": sd}, True)
+        if r:
+            ctx.fail(r[0], r[1], r[2])
+            break
     # corpus: the two replays of the repaired defect, then small boundary datasets
     corpus = [
         ([[0.0], [0.6], [-0.6]], [1.0, 2.0, 3.0], [("dedup", 1.0)]),
@@ -1164,7 +1213,9 @@ def replay(ctx: Ctx, data: dict) -> bool:
     ok = True
     for d in items:
         r = None
-        if d.get("pred") == "exact":
+        if "persist_seed" in d:
+            r = persist_predicate(int(d["persist_seed"]))
+        elif d.get("pred") == "exact":
             r = predicate_exact(d["T"], d["R"], [tuple(o) for o in d["ops"]])
         elif d.get("pred") == "roundtrip":
             r = predicate_roundtrip(d["T"], d["R"])
